@@ -1,5 +1,5 @@
 """Which engine parts decide which property."""
-from .engines import deque, codec, stream
+from .engines import deque, codec, stream, pipe
 
 # part name -> (run(res, work, tier, seed), replay(rep, work))
 PARTS = {
@@ -8,6 +8,7 @@ PARTS = {
     "codec.small": (codec.run_small, codec.replay),
     "codec.prod": (codec.run_prod, codec.replay),
     "stream.main": (stream.run_stream, stream.replay),
+    "pipe.random": (pipe.run_random, pipe.replay),
 }
 
 # property -> parts whose violations (filtered by property id) decide it
@@ -19,5 +20,10 @@ PROPERTY_PARTS = {
     "C07": ["codec.small", "codec.prod"],
     "C09": ["codec.small", "codec.prod"],
     "C08": ["stream.main"],
+    "C03": ["pipe.random"],
+    "C04": ["pipe.random"],
+    "C05": ["pipe.random"],
+    "C20": ["pipe.random"],
+    "C10": ["pipe.random"],
     "C06": ["stream.main"],
 }
